@@ -99,6 +99,10 @@ var chanVariants = []struct {
 		{UUID: chTelA, Name: "Seattle", Address: "+12065550000", Schemes: []string{"tel"}, Roles: sr, Country: "US"},
 		{UUID: chTelB, Name: "SF", Address: "+14155550000", Schemes: []string{"tel"}, Roles: sr},
 	}},
+	{"tel-two-countries", []chanDef{ // the candidates for one number belong to different countries (one is international)
+		{UUID: chTelA, Name: "RW Line", Address: "+250788000000", Schemes: []string{"tel"}, Roles: sr, Country: "RW"},
+		{UUID: chTelB, Name: "UG Intl", Address: "+256700000000", Schemes: []string{"tel"}, Roles: sr, Country: "UG", Intl: true, Prefixes: []string{"25073"}},
+	}},
 }
 
 // ---- URN slots ----------------------------------------------------------------------------------
@@ -370,6 +374,8 @@ func genScenario(r *hx.Rand, id int) *scenario {
 	telMode := -1
 	if n := chanVariants[sc.ChanVariant].name; n == "tel-prefixes" || n == "tel-address-overlap" {
 		telMode = r.Intn(3)
+	} else if n == "tel-two-countries" {
+		telMode = 3 // RW numbers starting 25078: both channels are candidates, the same one wins for both twins
 	}
 	sc.Country = hx.Pick(r, []string{"US", "RW", ""})
 	sc.Contact = genContact(r.Fork("contact"), contactUUID, 1000+r.Intn(9000000), sc.chans(), telMode)
@@ -509,6 +515,10 @@ func corpusScenarios() []*scenario {
 	zp.Trigger = "flow_action"
 	zp.Parent = &contactDef{UUID: parentCUUID, ID: 0, Name: "", Slots: []urnSlot{fixed("tel", "tel:+12065553333", "tel:+12065554444")}, Fields: map[string]any{}}
 	out = append(out, zp)
+	// DIVERGENT, second sink: the two candidate channels have different countries -> environment country RW vs UG
+	d3 := base("divergent-tel-channel-country", 6, "Ann", fixed("tel", "tel:+250788123123", "tel:+250738123123"))
+	d3.Country = ""
+	out = append(out, d3)
 	// POLICY SWITCH mid-flow: the first resume carries the same environment with the other redaction policy
 	fl := base("policy-switch-on-first-resume", 0, "", fixed("tel", "tel:+12065551212", "tel:+12065559876"), fixed("twitterid", "twitterid:54784326227#nyaruka", "twitterid:11223344556#other"))
 	fl.Resumes[0].FlipPolicy = true
